@@ -13,14 +13,14 @@ from mc import docs
 from mc.kernel import Tally, case_alarm, chunked, fan_out, observed_warnings
 from mc.observe import compare_items, compare_outcome, exc_names, items_of, parse_one
 from mc.ref.interp import decode_packet
-from mc.spec import (And, BoolExpr, Cmp, Cond, Container, Doc, Fixed, IntEnc, StrEnc, Or, Param, Poly, PType, HEADER_NAMES, header_entries, header_params,
+from mc.spec import (And, BoolExpr, Cmp, Cond, Container, CtxCal, Doc, Fixed, IntEnc, StrEnc, Or, Param, Poly, PType, HEADER_NAMES, header_entries, header_params,
                      header_ptypes, load_doc, build_objects)
 
 PROP = "C05"
 LEVEL = "exploration"
 
 OTHER_NAMES = ("CCSDS_VER", "CCSDS_TYPE", "CCSDS_SHF", "APP_ID", "GRP_FLAGS", "SSC", "LENGTH")
-N_CRIT = 10
+N_CRIT = 11
 
 
 def criterion(k, apid):
@@ -41,6 +41,9 @@ def criterion(k, apid):
                           (And((Cond(apid, "==", right_value="2", right_cal=False), Cond("SEL", "==", right_value="3", right_cal=False))),)),))),),
         # a text discriminator whose trailing blank is significant: TAG is 'HK', 'H ', ' K' or '  ' (by APID)
         (BoolExpr(Cond("TAG", "==", right_value="H ", right_cal=False)),),
+        # a discriminator whose Python type varies from packet to packet: XSEL (raw 2) is a float 2.0 in APID-1 packets (a context calibrator
+        # applies) and a plain int 2 otherwise; it never equals 3
+        (Cmp("XSEL", "==", "3"),),
     ][k]
 
 
@@ -54,14 +57,15 @@ def make_doc(n, parents, crits, abstract_bits, nest, children_first, other_names
     names = OTHER_NAMES if other_names else HEADER_NAMES
     apid = names[3]
     pts = list(header_ptypes()) + [PType("SEL_T", "Integer", IntEnc(2)), PType("P6_T", "Integer", IntEnc(6)), PType("M_T", "Integer", IntEnc(8)),
-                                   PType("CSEL_T", "Integer", IntEnc(2, default_cal=Poly(((2.0, 1),)))), PType("P4_T", "Integer", IntEnc(4)),
+                                   PType("CSEL_T", "Integer", IntEnc(2, default_cal=Poly(((2.0, 1),)))), PType("P4_T", "Integer", IntEnc(2)),
+                                   PType("XSEL_T", "Integer", IntEnc(2, ctx_cals=(CtxCal((Cmp(apid, "==", "1"),), Poly(((1.0, 1),))),))),
                                    PType("TAG_T", "String", StrEnc(Fixed(16), "US-ASCII"))]
-    prs = list(header_params(names)) + [Param("SEL", "SEL_T"), Param("CSEL", "CSEL_T"), Param("P6", "P4_T"), Param("TAG", "TAG_T")] + [Param(f"M{i}", "M_T") for i in range(1, n)] + [Param("NM", "M_T"), Param("TAILM", "M_T"), Param("LM", "M_T"), Param("RM", "M_T")]
+    prs = list(header_params(names)) + [Param("SEL", "SEL_T"), Param("CSEL", "CSEL_T"), Param("XSEL", "XSEL_T"), Param("P6", "P4_T"), Param("TAG", "TAG_T")] + [Param(f"M{i}", "M_T") for i in range(1, n)] + [Param("NM", "M_T"), Param("TAILM", "M_T"), Param("LM", "M_T"), Param("RM", "M_T")]
     cnames = [root_name] + [f"C{i}" for i in range(1, n)]
     conts = []
     for i in range(n):
         if i == 0:
-            entries = list(header_entries(names)) + [("p", "SEL"), ("p", "CSEL"), ("p", "P6"), ("p", "TAG")]
+            entries = list(header_entries(names)) + [("p", "SEL"), ("p", "CSEL"), ("p", "XSEL"), ("p", "P6"), ("p", "TAG")]
         else:
             entries = [("p", f"M{i}")]
         if nest == 1:
@@ -82,7 +86,7 @@ def make_doc(n, parents, crits, abstract_bits, nest, children_first, other_names
         elif nest == 2:
             # nested container inside the root, between header and SEL
             if i == 0:
-                entries = list(header_entries(names)) + [("c", "NEST"), ("p", "SEL"), ("p", "CSEL"), ("p", "P6"), ("p", "TAG")]
+                entries = list(header_entries(names)) + [("c", "NEST"), ("p", "SEL"), ("p", "CSEL"), ("p", "XSEL"), ("p", "P6"), ("p", "TAG")]
         base = None if i == 0 else cnames[parents[i - 1]]
         crit = None if i == 0 else criterion(crits[i - 1], apid)
         conts.append(Container(cnames[i], tuple(entries), base=base, criteria=crit, abstract=bool(abstract_bits >> i & 1),
@@ -269,8 +273,8 @@ def run(ctx):
     coverage = {
         "programs": tally.programs,
         "exhaustive": True,
-        "bound": (f"all parent vectors with <= {3 if ctx.quick else 4} containers x 10 criteria per child edge (APID==1, APID==2, APID!=1, SEL<2, two-comparison list, "
-                  "boolean expression, no RestrictionCriteria, two-parameter condition with mixed raw/calibrated selectors, nested AND/OR groups, a text discriminator with a significant trailing blank) x abstract flag per node x nesting {none, shared nested container referenced from two nodes, nested "
+        "bound": (f"all parent vectors with <= {3 if ctx.quick else 4} containers x 11 criteria per child edge (APID==1, APID==2, APID!=1, SEL<2, two-comparison list, "
+                  "boolean expression, no RestrictionCriteria, two-parameter condition with mixed raw/calibrated selectors, nested AND/OR groups, a text discriminator with a significant trailing blank, a discriminator that is a float in some packets and an int in others) x abstract flag per node x nesting {none, shared nested container referenced from two nodes, nested "
                   "inside the root, double reference, diamond, a stand-alone container listed first that embeds the root} x document order {parents first, children first} x header naming {conventional, other}; packets APID 0..3 x SEL 0..3; "
                   "parse_ccsds_packet and the generator with and without error reporting; every 11th document also built from objects; "
                   "about every fifth loaded definition is then edited in place (abstract flags and restriction criteria taken from another document) and checked against that document"),
